@@ -68,6 +68,10 @@ func init() {
 		default:
 			xt.Fail("MissReport: guard not recognised")
 		}
+		// feeds MsgSubmitSignalPrices and its admission check: normalised text (compared with the reviewed text in Model/FeedsSubmitSrc.lean)
+		l.P("def src_SubmitSignalPrices : String := %s", xt.LeanStr(fk.Norm(fk.Func("msgServer", "SubmitSignalPrices").Body)))
+		l.P("def src_ValidateValidatorRequiredToSend : String := %s", xt.LeanStr(fk.Norm(fk.Func("Keeper", "ValidateValidatorRequiredToSend").Body)))
+		l.P("def src_NewValidatorPrice : String := %s", xt.LeanStr(ft.Norm(ft.Func("", "NewValidatorPrice").Body)))
 		l.P("end BandVerif.Generated.Status")
 		l.Write()
 	})
